@@ -135,7 +135,10 @@ def with_faults(case):
     return ctxs, faulty, before
 
 
-def run_collect(fe, tbl, contexts, style):
+AXES = ("data", "tinp", "zinp", "lat", "lon")
+
+
+def run_collect(fe, tbl, contexts, style, want_fields=False):
     """-> {(stream, module, test): [flags or None (masked)]}"""
     from ioos_qc.config import Config
     from ioos_qc.results import collect_results
@@ -162,9 +165,20 @@ def run_collect(fe, tbl, contexts, style):
         # a ContextResult whose call failed has no CallResult: it contributes nothing
         got = collect_results([r for r in res], how="list")
     out = {}
+    fields = {}
     for c in got:
         d, m = np.ma.getdata(c.results), np.ma.getmaskarray(c.results)
-        out[(c.stream_id, c.package, c.test)] = [None if mm else sint(v) for v, mm in zip(np.asarray(d).ravel().tolist(), np.asarray(m).ravel().tolist())]
+        key = (c.stream_id, c.package, c.test)
+        out[key] = [None if mm else sint(v) for v, mm in zip(np.asarray(d).ravel().tolist(), np.asarray(m).ravel().tolist())]
+        # the observations / time / depth / position the collected result carries along with the flags
+        fields[key] = {}
+        for ax in AXES:
+            a = getattr(c, ax, None)
+            vals = sg._tolist(np.ma.getdata(a)) if a is not None else []
+            mask = np.ma.getmaskarray(a).ravel().tolist() if a is not None else []
+            fields[key][ax] = [None if mm else v for v, mm in zip(vals or [], mask)]
+    if want_fields:
+        return out, fields
     return out
 
 
@@ -199,17 +213,18 @@ def check_faults(case, rec):
         site = {"pandas": "PandasStream", "numpy_dict": "NumpyStream(dict)", "xarray_coord": "XarrayStream", "netcdf": "NetcdfStream"}[fe]
         info = {"frontend": fe, "fault_kinds": kinds}
         try:
-            full = run_collect(fe, tbl, ctxs_f, case["style"])
+            full, full_fields = run_collect(fe, tbl, ctxs_f, case["style"], want_fields=True)
         except Exception as e:
             rec.fail(site, f"run with faulty entries raised {type(e).__name__}: {str(e)[:200]}", raised=True, exc=type(e).__name__, **info)
             continue
         # expected: union of running each healthy test alone
         want = {}
+        want_fields = {}
         ok = True
         for ci, sid, e in healthy:
             alone = [{"window": case["contexts"][ci].get("window"), "streams": {sid: [e]}}]
             try:
-                r = run_collect(fe, tbl, alone, case["style"])
+                r, rf = run_collect(fe, tbl, alone, case["style"], want_fields=True)
             except Exception as ex:
                 rec.fail(site, f"running a healthy test alone raised {type(ex).__name__}: {str(ex)[:200]}", raised=True,
                          exc=type(ex).__name__, alone=True, **info)
@@ -218,8 +233,12 @@ def check_faults(case, rec):
             for k, v in r.items():
                 if k in want:
                     want[k] = [a if a is not None else b for a, b in zip(want[k], v)]
+                    for ax in AXES:
+                        old, new = want_fields[k][ax], rf[k][ax]
+                        want_fields[k][ax] = [a if a is not None else b for a, b in zip(old, new)] if len(old) == len(new) else (old or new)
                 else:
                     want[k] = v
+                    want_fields[k] = rf[k]
         if not ok:
             continue
         bad_keys = sorted(k for k in full if k in faulty and k not in want)
@@ -233,6 +252,14 @@ def check_faults(case, rec):
             if full[k] != v:
                 rec.fail(site, f"healthy result {k} changed when faulty entries were added", expected=v, got=full[k], changed=True, **info)
                 break
+        else:
+            for k in want:
+                diff = [ax for ax in AXES if full_fields[k][ax] != want_fields[k][ax]]
+                if diff:
+                    ax = diff[0]
+                    rec.fail(site, f"the {ax} carried by healthy result {k} changed when faulty entries were added",
+                             expected=want_fields[k][ax], got=full_fields[k][ax], changed=True, field=ax, **info)
+                    break
         extra = sorted(k for k in full if k not in want and k not in faulty)
         if extra:
             rec.fail(site, f"unexpected result key {extra[0]}", got=[list(k) for k in extra], **info)
